@@ -104,6 +104,187 @@ def shape_features(r, c):
     return f
 
 
+# ----------------------------------------------------------------------------- memory layouts of the saved arrays
+ORDERS = ["C", "F", "T", "step", "rev", "crop"]
+EXTRA_FORMATS = ["<f8", "<f8", "<f4", "<i4", "u1", "<i2"]
+
+
+class BadCase(Exception):
+    """the abstract case does not describe a buildable input (only a shrinker or a hand-written replay can get here)"""
+
+
+def alloc(shape, dtype, order):
+    """zeroed array of `shape` whose memory layout is `order`: C, Fortran, a transposed view, every second element of
+    a larger array, a view with negative strides, the interior of a larger array"""
+    shape = [int(n) for n in shape]
+    if order == "C":
+        return np.zeros(shape, dtype)
+    if order == "F":
+        return np.zeros(shape, dtype, order="F")
+    if order == "T":
+        return np.zeros(shape[::-1], dtype).T
+    if order == "step":
+        return np.zeros([2 * n + 1 for n in shape], dtype)[tuple(slice(1, None, 2) for _ in shape)]
+    if order == "rev":
+        return np.zeros(shape, dtype)[tuple(slice(None, None, -1) for _ in shape)]
+    if order == "crop":
+        return np.zeros([n + 3 for n in shape], dtype)[tuple(slice(1, 1 + n) for n in shape)]
+    raise BadCase(f"order {order!r}")
+
+
+def build_structured(shape, names, vals, layout, order):
+    """the structured float64 image of the case: fields `names` (in this order) holding `vals`, laid out in memory as
+    `layout` says - packed in name order (None), a multi-field selection `base[names]` of a record whose fields lie in
+    another order and may have other members between them ("select"), or a dtype with explicit offsets and itemsize
+    ("offsets")"""
+    k = len(names)
+    if layout is None:
+        data = alloc(shape, [(n, np.float64) for n in names], order)
+    elif layout.get("via") == "select":
+        rec = layout["record"]
+        if sorted(i for i, _ in rec if i >= 0) != list(range(k)) or any(f != "<f8" for i, f in rec if i >= 0):
+            raise BadCase("record does not hold every element once as float64")
+        if any(f not in EXTRA_FORMATS for i, f in rec if i < 0):
+            raise BadCase("format of another member")
+        members, extra = [], 0
+        for i, f in rec:
+            if i >= 0:
+                members.append((names[i], f))
+            else:
+                while f"other{extra}" in names:
+                    extra += 1
+                members.append((f"other{extra}", f))
+                extra += 1
+        base = alloc(shape, np.dtype(members, align=bool(layout.get("align", False))), order)
+        data = base[list(names)] if k > 1 or len(rec) > 1 else base
+        if data.dtype.names != tuple(names):
+            raise BadCase("selection")
+    elif layout.get("via") == "offsets":
+        offs, size = [int(o) for o in layout["offsets"]], int(layout["itemsize"])
+        if len(offs) != k or any(o < 0 or o + 8 > size for o in offs):
+            raise BadCase("offsets outside the record")
+        if any(abs(a - b) < 8 for i, a in enumerate(offs) for b in offs[i + 1:]):
+            raise BadCase("overlapping fields")
+        data = alloc(shape, np.dtype({"names": list(names), "formats": ["<f8"] * k, "offsets": offs, "itemsize": size}), order)
+    else:
+        raise BadCase(f"layout {layout!r}")
+    for n, v in zip(names, vals):
+        data[n][...] = np.array(v, dtype="<i8").view(np.float64).reshape(shape)
+    for n, v in zip(names, vals):  # the input really is the image of the case, whatever the layout
+        if data[n].shape != tuple(shape) or [int(x) for x in data[n].view("<i8").ravel()] != [int(x) for x in v]:
+            raise BadCase("the built array does not hold the values of the case")
+    return data
+
+
+def layout_features(data, prefix):
+    f = set()
+    if data.dtype.names is not None:
+        offs = [data.dtype.fields[n][1] for n in data.dtype.names]
+        if offs != sorted(offs):
+            f.add(prefix + "fields-not-in-name-order")
+        if data.dtype.itemsize > 8 * len(offs):
+            f.add(prefix + "padded-record")
+        if any(o % 8 for o in offs) or data.dtype.itemsize % 8:
+            f.add(prefix + "unaligned-field")
+    if data.size > 1 and not (data.flags.c_contiguous or data.flags.f_contiguous):
+        f.add(prefix + "noncontiguous")
+    elif data.size > 1 and data.ndim > 1 and not data.flags.c_contiguous:
+        f.add(prefix + "fortran-contiguous")
+    if any(st < 0 for st, n in zip(data.strides, data.shape) if n > 1):
+        f.add(prefix + "negative-stride")
+    return f
+
+
+def gen_layout(rng, k):
+    """memory layout of a k-element structured image (None = packed in name order)"""
+    u = rng.random()
+    if u < 0.35:
+        return None
+    perm = list(range(k))
+    if k > 1 and rng.random() < 0.8:
+        while perm == list(range(k)):
+            rng.shuffle(perm)
+    if u < 0.70:  # multi-field selection of a (larger) record
+        rec = [[i, "<f8"] for i in perm]
+        for _ in range(rng.choice([0, 0, 0, 1, 1, 2])):
+            rec.insert(rng.randint(0, len(rec)), [-1, rng.choice(EXTRA_FORMATS)])
+        return {"via": "select", "record": rec, "align": rng.random() < 0.3}
+    offs, at = [0] * k, 0
+    for i in perm:
+        at += rng.choice([0, 0, 0, 8, 8, 16, 4, 1])
+        offs[i] = at
+        at += 8
+    return {"via": "offsets", "offsets": offs, "itemsize": at + rng.choice([0, 0, 0, 8, 3])}
+
+
+# ----------------------------------------------------------------------------- delimiter files that change style late
+SWITCH_AT = [1024, 2048, 4096, 8192, 16384, 65536, 131072]  # sample / buffer sizes a reader might look at first
+
+
+def field_text(t) -> str:
+    return repr(float(untok(t)))
+
+
+def sep_of(style, pick):
+    if style in DELIMS:
+        return style
+    if style == "noncomma":
+        return pick([";", "\t"])
+    return pick(DELIMS)  # "mixed"
+
+
+def late_switch(c, target, head, tail, tail_rows, value, pick):
+    """rows*cols image and separators: rows in style `head` until the file is `target` characters long, then `tail_rows`
+    rows in style `tail` ("one" = style `head` but for a single separator)"""
+    vals, seps, size = [], [], 0
+    while size < target:
+        row = [value() for _ in range(c)]
+        vals += row
+        seps.append([sep_of(head, pick) for _ in range(c - 1)])
+        size += sum(len(field_text(t)) for t in row) + c
+    for _ in range(tail_rows):
+        vals += [value() for _ in range(c)]
+        seps.append([sep_of(head if tail == "one" else tail, pick) for _ in range(c - 1)])
+    if tail == "one":
+        others = [d for d in DELIMS if d != head] if head in DELIMS else [","]
+        i = len(seps) - 1 - pick(range(tail_rows))
+        seps[i][pick(range(c - 1))] = pick(others)
+    return {"kind": "delims", "rows": len(seps), "cols": c, "vals": vals, "seps": seps}
+
+
+def gen_late_switch(rng):
+    big = rng.random() < 0.08
+    at = rng.choice([65536, 131072] if big else [1024, 2048, 4096, 4096, 4096, 8192, 8192, 16384])
+    target = int(at * rng.choice([0.7, 1.0, 1.0, 1.0, 1.02, 1.3, 2.1])) + rng.randint(0, 60)
+    c = rng.choice([2, 2, 3, 12, rng.randint(2, 16), rng.randint(2, 40)])
+    if rng.random() < 0.65:
+        head, tail = ",", rng.choice([";", "\t", "noncomma", "mixed", "mixed", "one"])
+    else:
+        head, tail = rng.choice([";", "\t", "noncomma"]), rng.choice([",", ",", "mixed", "one"])
+    if rng.random() < 0.5:
+        value = lambda: gen_value(rng)
+    else:  # short fields: many rows before the switch
+        value = lambda: tok(float(rng.randint(-99, 999)) / rng.choice([1, 1, 2, 10]))
+    tail_rows = rng.choice([1, 1, 2, 3, rng.randint(1, 40)])
+    return late_switch(c, target, head, tail, tail_rows, value, rng.choice)
+
+
+def switch_features(text):
+    """where in the written file the second kind of separator first appears"""
+    first = {d: text.find(d) for d in DELIMS if d in text}
+    if len(first) < 2:
+        return set()
+    order = sorted(first, key=first.get)
+    at = first[order[1]]
+    reached = [n for n in SWITCH_AT if at >= n]
+    if not reached:
+        return set()
+    n = max(reached)
+    f = {f"delims:second-style-after-{n // 1024}KiB"}
+    f.add("delims:late:commas-first" if order[0] == "," else "delims:late:commas-later" if order[1] == "," else "delims:late:no-commas")
+    return f
+
+
 # ----------------------------------------------------------------------------- independent VTI reader
 class Malformed(Exception):
     pass
@@ -194,9 +375,14 @@ class C16(Prop):
     cases = {"quick": 800, "thorough": 12000}
     rule = ("text: images from 1x1 (single rows and columns forced) with special values (denormals, +-max, -0.0, NaN, "
             "+-inf, arbitrary bit patterns), saved and loaded, plus harness-written files with ',', ';', tab and mixed "
-            "delimiters; VTK: 2-D and 3-D structured float64 images with 1..4 elements whose names need XML escaping, "
-            "arbitrary spacings, read back by an independent VTI reader; non-trivial = boundary shape, special value, "
-            "escaped name, several elements or mixed delimiters; distinct by canonical case hash")
+            "delimiters, among them long files (to beyond 1, 2, 4, 8, 16, 64, 128 KiB) whose second style of separator first "
+            "appears late - commas first and ';'/tab/mixture/one odd separator later, and the reverse; saved arrays also "
+            "Fortran-ordered, transposed, strided, reversed and cropped views; VTK: 2-D and 3-D structured float64 images "
+            "with 1..4 elements whose names need XML escaping, arbitrary spacings, element fields packed in name order, "
+            "multi-field selections of a record laid out in another order (with other members between), dtypes with "
+            "explicit offsets and padding, in every memory order above, read back by an independent VTI reader; "
+            "non-trivial = boundary shape, special value, escaped name, several elements, mixed delimiters or a "
+            "non-default memory layout; distinct by canonical case hash")
     trusted = ["'%.18g' printing followed by genfromtxt's float conversion is the identity on finite float64, zeros and "
                "infinities and maps NaN to NaN (the model's opaque fmt/parse with parse (fmt x) = x)",
                "xml.etree.ElementTree decodes the five predefined entities (the model's `unescape`)",
@@ -212,7 +398,12 @@ class C16(Prop):
             header = None
             if rng.random() < 0.15:
                 header = "".join(rng.choice("abc XYZ,;#01") for _ in range(rng.randint(1, 8)))
-            return {"kind": "text", "rows": r, "cols": c, "vals": gen_vals(rng, r, c), "header": header}
+            case = {"kind": "text", "rows": r, "cols": c, "vals": gen_vals(rng, r, c), "header": header}
+            if rng.random() < 0.35:
+                case["order"] = rng.choice(ORDERS[1:])
+            return case
+        if k < 0.45:
+            return gen_late_switch(rng)
         if k < 0.60:
             r, c = gen_shape2(rng)
             style = rng.choice([",", ";", "\t", "mixed", "mixed"])
@@ -231,8 +422,14 @@ class C16(Prop):
                 names.append(n)
         size = int(np.prod(shape))
         spacing = [rng.choice([1, 1.0, 0.5, 35.0, 1e-3, 2.5e-5, 1234.5678, rng.uniform(1e-6, 1e6)]) for _ in range(3)]
-        return {"kind": "vtk", "shape": shape, "names": names, "vals": [[gen_value(rng) for _ in range(size)] for _ in names],
+        case = {"kind": "vtk", "shape": shape, "names": names, "vals": [[gen_value(rng) for _ in range(size)] for _ in names],
                 "spacing": spacing}
+        layout = gen_layout(rng, nf)
+        if layout is not None:
+            case["layout"] = layout
+        if rng.random() < 0.5:
+            case["order"] = rng.choice(ORDERS[1:])
+        return case
 
     def targeted(self, tier):
         one = tok(1.0)
@@ -259,6 +456,38 @@ class C16(Prop):
                 yield {"kind": "vtk", "shape": shape, "names": names, "vals": vals, "spacing": [1, 1, 1]}
         yield {"kind": "vtk", "shape": [2, 2], "names": ["&amp;", "&", "&&lt;;"], "spacing": [0.5, 35.0, 1e-3],
                "vals": [[tok(v) for v in SPECIALS[:4]], [tok(v) for v in SPECIALS[4:8]], [one] * 4]}
+        # vtk: element fields that do not lie in memory in name order, padded records, every memory order
+        for shape in ([1, 1], [2, 3], [3, 1, 2]):
+            size = int(np.prod(shape))
+            for names in (["B", "A"], ["B<2>", "A&1", "C"]):
+                k = len(names)
+                vals = [[tok(float(100 * j + i)) for i in range(size)] for j in range(k)]
+                base = {"kind": "vtk", "shape": shape, "names": names, "vals": vals, "spacing": [1, 1, 1]}
+                back = list(range(k))[::-1]
+                yield {**base, "layout": {"via": "select", "record": [[i, "<f8"] for i in back], "align": False}}
+                yield {**base, "layout": {"via": "select", "record": [[back[0], "<f8"], [-1, "u1"]] + [[i, "<f8"] for i in back[1:]], "align": False}}
+                yield {**base, "layout": {"via": "select", "record": [[-1, "<i4"]] + [[i, "<f8"] for i in range(k)], "align": True}}
+                yield {**base, "layout": {"via": "offsets", "offsets": [8 * i for i in back], "itemsize": 8 * k}}
+                yield {**base, "layout": {"via": "offsets", "offsets": [16 * i + 4 for i in back], "itemsize": 16 * k + 3}}
+                for order in ORDERS[1:]:
+                    yield {**base, "order": order}
+                    yield {**base, "order": order, "layout": {"via": "select", "record": [[i, "<f8"] for i in back], "align": False}}
+        yield {"kind": "vtk", "shape": [2, 2], "names": ["A"], "vals": [[tok(float(i)) for i in range(4)]], "spacing": [1, 1, 1],
+               "layout": {"via": "offsets", "offsets": [8], "itemsize": 24}}
+        for order in ORDERS[1:]:
+            yield {"kind": "text", "rows": 3, "cols": 4, "vals": [tok(SPECIALS[i]) for i in range(12)], "header": None, "order": order}
+        # delimiter files whose second style of separator first appears after 1 KiB ... 128 KiB
+        for n, at in enumerate(SWITCH_AT):
+            for m, (head, tail) in enumerate([(",", ";"), (",", "\t"), (",", "mixed"), (",", "one"), (";", ","), ("\t", "one"), ("noncomma", ",")]):
+                if at > 8192 and m not in (0, 3, 4):
+                    continue
+                count = iter(range(10 ** 9))
+                pick = lambda seq, count=count: seq[(next(count) * 7 + 3) % len(seq)]
+                if (n + m) % 2:
+                    value = lambda count=count: tok(SPECIALS[(next(count) * 5 + 1) % len(SPECIALS)])
+                else:
+                    value = lambda count=count: tok(float((next(count) * 37) % 1000) / 4)
+                yield late_switch([12, 3, 2, 17][(n + m) % 4], at + [0, 40, 700][(n + m) % 3], head, tail, 1 + (n + m) % 3, value, pick)
 
     # ------------------------------------------------------------------ evaluation
     def evaluate(self, case, ctx):
@@ -272,6 +501,14 @@ class C16(Prop):
         path = ctx.tmpdir() / "image.csv"
         feats = shape_features(r, c) | classify(toks)
         if case["kind"] == "text":
+            if case.get("order", "C") != "C":  # the same image in another memory layout
+                try:
+                    laid = alloc([r, c], np.float64, case["order"])
+                except BadCase as e:
+                    return outcome(None, None, None, spec_ok=True, model_ok=True, undetermined=True, note=f"bad case: {e}")
+                laid[...] = arr
+                arr = laid
+                feats |= {"text:order=" + case["order"]} | layout_features(arr, "text:")
             try:
                 if case["header"] is None:
                     textimage.save(path, arr)
@@ -290,6 +527,7 @@ class C16(Prop):
                     out += s + f
                 lines.append(out + "\n")
             path.write_text("".join(lines))
+            feats |= switch_features("".join(lines))
             used = {s for row in case["seps"] for s in row}
             feats.add("delims:" + ("none" if not used else "mixed" if len(used) > 1 else {",": "comma", ";": "semicolon", "\t": "tab"}[used.pop()]))
             rep = ctx.driver.call("c16.delims", rows=r, cols=c, data=toks, seps=case["seps"])
@@ -312,9 +550,11 @@ class C16(Prop):
 
         shape, names = case["shape"], case["names"]
         size = int(np.prod(shape))
-        data = np.empty(shape, dtype=[(n, np.float64) for n in names])
-        for n, vals in zip(names, case["vals"]):
-            data[n] = np.array(vals, dtype="<i8").view(np.float64).reshape(shape)
+        layout, order = case.get("layout"), case.get("order", "C")
+        try:
+            data = build_structured(shape, names, case["vals"], layout, order)
+        except BadCase as e:
+            return outcome(None, None, None, spec_ok=True, model_ok=True, undetermined=True, note=f"bad case: {e}")
         path = ctx.tmpdir() / "image.vti"
         spacing = tuple(case["spacing"])
         note = ""
@@ -342,7 +582,7 @@ class C16(Prop):
                         continue
                     # x fastest, then y, then z; x along columns, y counted from the bottom row
                     cube = np.array(a["values"], dtype="<i8").reshape((nz, ny, nx))
-                    src = data[n].reshape(n0, n1, n2).view("<i8")
+                    src = np.array(case["vals"][names.index(n)], dtype="<i8").reshape(n0, n1, n2)
                     back = cube.transpose(1, 2, 0)[::-1, :, :]
                     dec_ok = dec_ok and bool(np.array_equal(back, src))
             impl = {"extent": [nx, ny, nz], "arrays": f["arrays"], "appended": f["words"],
@@ -358,6 +598,7 @@ class C16(Prop):
         feats = shape_features(n0, n1) | {"vtk", f"vtk:{len(shape)}-D", f"vtk:elements={min(len(names), 3)}{'+' if len(names) > 3 else ''}"}
         if n2 > 1:
             feats.add("vtk:nz>1")
+        feats |= {"vtk:layout=" + ("packed" if layout is None else layout["via"]), "vtk:order=" + order} | layout_features(data, "vtk:")
         if any(ch in n for n in names for ch in "&<>\"'"):
             feats.add("vtk:name-needs-escaping")
         if any("&amp;" in n or "&lt;" in n or "&#" in n for n in names):
@@ -374,6 +615,16 @@ class C16(Prop):
         if case["kind"] in ("text", "delims"):
             r, c = case["rows"], case["cols"]
             grid = [case["vals"][i * c:(i + 1) * c] for i in range(r)]
+            if r > 8:  # long files: drop blocks of rows first
+                n = r // 2
+                while n >= 4:
+                    for i in range(0, r, n):
+                        g = grid[:i] + grid[i + n:]
+                        cand = {**case, "rows": len(g), "vals": [v for row in g for v in row]}
+                        if "seps" in case:
+                            cand["seps"] = case["seps"][:i] + case["seps"][i + n:]
+                        yield cand
+                    n //= 2
             if r > 1:
                 for i in range(r):
                     g = grid[:i] + grid[i + 1:]
@@ -389,14 +640,32 @@ class C16(Prop):
                     yield cand
             if case.get("header") is not None:
                 yield {**case, "header": None}
+            if case.get("order", "C") != "C":
+                yield {k: v for k, v in case.items() if k != "order"}
             for i, v in enumerate(case["vals"]):
                 if v != one:
                     yield {**case, "vals": case["vals"][:i] + [one] + case["vals"][i + 1:]}
         else:
             names, vals, shape = case["names"], case["vals"], case["shape"]
+            layout = case.get("layout")
             if len(names) > 1:
                 for i in range(len(names)):
-                    yield {**case, "names": names[:i] + names[i + 1:], "vals": vals[:i] + vals[i + 1:]}
+                    cand = {**case, "names": names[:i] + names[i + 1:], "vals": vals[:i] + vals[i + 1:]}
+                    if layout is not None and layout.get("via") == "select":
+                        cand["layout"] = {**layout, "record": [[j - (j > i), f] for j, f in layout["record"] if j != i]}
+                    elif layout is not None and layout.get("via") == "offsets":
+                        cand["layout"] = {**layout, "offsets": layout["offsets"][:i] + layout["offsets"][i + 1:]}
+                    yield cand
+            if layout is not None:
+                yield {k: v for k, v in case.items() if k != "layout"}
+                if layout.get("via") == "select":
+                    for j, (i, _) in enumerate(layout["record"]):
+                        if i < 0:
+                            yield {**case, "layout": {**layout, "record": layout["record"][:j] + layout["record"][j + 1:]}}
+                    if layout.get("align"):
+                        yield {**case, "layout": {**layout, "align": False}}
+            if case.get("order", "C") != "C":
+                yield {k: v for k, v in case.items() if k != "order"}
             for ax in range(len(shape)):
                 if shape[ax] > 1:
                     sh = list(shape)
